@@ -453,9 +453,15 @@ def bind_args(h, skip, call):
             defaults[p.arg] = d
     if any(isinstance(x, ast.Starred) for x in call.args) or any(k.arg is None for k in call.keywords):
         return None
-    if len(call.args) > len([p for p in a.posonlyargs + a.args][skip:]):
-        return None
-    b = dict(zip(params, call.args))
+    npos = len([p for p in a.posonlyargs + a.args][skip:])
+    rest_pos = None
+    if len(call.args) > npos:
+        if a.vararg is None:
+            return None
+        rest_pos = list(call.args[npos:])          # *names collects the remaining positional arguments: a tuple display
+    b = dict(zip(params[:npos], call.args[:npos]))
+    if a.vararg is not None:
+        b[a.vararg.arg] = ast.Tuple(elts=rest_pos or [], ctx=ast.Load())
     extra = []
     for k in call.keywords:
         if k.arg in params and k.arg not in b:
